@@ -9,9 +9,37 @@ import IclModel.Gen.Layouts
 import IclModel.Spec.Layouts
 import IclModel.Gen.Rules
 import IclModel.Spec.Rules
+import IclModel.TreeWire
+import IclModel.Gen.Cp037
 open Icl Icl.Wire
 
 def findRec (n : String) : Option RecLayout := Gen.all.find? (fun L => L.name == n)
+
+def theModel (frb : Bool) (now : Date) : Model :=
+  { layouts := Gen.all, validator := treeValidator Gen.all Gen.allRules Gen.codes b64Go frb,
+    cm := { dec := Gen.cp037Dec, repl := Gen.cp037Repl }, b64 := b64Go, now := now, frb := frb }
+
+/-- the same machine over the hand-written Spec tables: layout columns for writing and for direct
+decoding, documented rules for validation (setRecordType/constructor effects are taken from Gen) -/
+def specLayouts : List RecLayout :=
+  Gen.all.map (fun L =>
+    match Spec.all.find? (fun p => p.1 == L.name) with
+    | some p => { L with write := Spec.toWrite p.2, parse := Spec.toParse p.2 }
+    | none => L)
+
+def specModel (frb : Bool) (now : Date) : Model :=
+  { layouts := specLayouts,
+    validator := fun n v =>
+      match Spec.allRules.find? (fun p => p.1 == n) with
+      | some p => evalSites { codes := Spec.codes, write := ((specLayouts.find? (fun L => L.name == n)).getD default).write,
+                              b64 := b64Go, frb := frb } p.2 v
+      | none => (some "<no rules>", v),
+    cm := { dec := Gen.cp037Dec, repl := Gen.cp037Repl }, b64 := b64Go, now := now, frb := frb }
+
+def parseDateArg (s : String) : Date :=
+  match s.splitOn "-" with
+  | [y, m, d] => ⟨parseNat y, parseNat m, parseNat d⟩
+  | _ => ⟨2000, 1, 1⟩
 
 def handle (line : String) : String :=
   match line.splitOn "\t" with
@@ -53,11 +81,31 @@ def handle (line : String) : String :=
       | (none, _) => "ok"
       | (some f, _) => "reject " ++ f
     | _, _ => "bad-rec"
+  | ["write", lp, ebc, tree] =>
+    match writeFile (theModel false ⟨2000, 1, 1⟩) { lp := lp == "1", ebcdic := ebc == "1" } (parseTree tree) with
+    | some b => toHex b
+    | none => "error"
+  | ["read", lp, ebc, frb, now, h] =>
+    let m := theModel (frb == "1") (parseDateArg now)
+    let (f, e) := readFile m { lp := lp == "1", ebcdic := ebc == "1" } (fromHex h)
+    dumpErr e ++ " # " ++ dumpTree m f
+  | ["writeSpec", lp, ebc, tree] =>
+    match writeFile (specModel false ⟨2000, 1, 1⟩) { lp := lp == "1", ebcdic := ebc == "1" } (parseTree tree) with
+    | some b => toHex b
+    | none => "error"
+  | ["readSpec", lp, ebc, frb, now, h] =>
+    let m := specModel (frb == "1") (parseDateArg now)
+    let (f, e) := readFile m { lp := lp == "1", ebcdic := ebc == "1" } (fromHex h)
+    dumpErr e ++ " # " ++ dumpTree m f
+  | ["ebcenc", h] => match (Charmap.encode { dec := Gen.cp037Dec, repl := Gen.cp037Repl } (fromHex h)) with
+    | some b => toHex b
+    | none => "error"
+  | ["ebcdec", h] => toHex (Charmap.decode { dec := Gen.cp037Dec, repl := Gen.cp037Repl } (fromHex h))
   | ["parse", r, h] =>
     match findRec r with
     | none => "bad-rec"
     | some L =>
-      match L.parseRec id (fromHex h) {} with
+      match L.parseRec id ⟨2000, 1, 1⟩ (fromHex h) {} with
       | .panic => "panic"
       | .done v => "ok " ++ dumpVals (fieldKinds L) v
   | _ => "bad-op"
